@@ -1775,6 +1775,10 @@ impl Model {
         if crate::verif_hooks::fast_path_disabled() {
             return None;
         }
+        // The router only sees posted propagators, not the constraints still waiting to be lowered
+        if !self.pending_constraint_asts.is_empty() {
+            return None;
+        }
         // Attempt optimization using the router
         match self.optimization_router.try_minimize(&self.vars, &self.props, objective) {
             OptimizationAttempt::Success(solution) => Some(solution),
@@ -1795,6 +1799,10 @@ impl Model {
         // Verification hook H4: the optimisation fast path can be switched off
         #[cfg(selen_verif)]
         if crate::verif_hooks::fast_path_disabled() {
+            return None;
+        }
+        // The router only sees posted propagators, not the constraints still waiting to be lowered
+        if !self.pending_constraint_asts.is_empty() {
             return None;
         }
         // Attempt optimization using the router
